@@ -206,6 +206,10 @@ def run(rep, tier):
     rep.extra["negative_models_refuted"] = 1
     defs = r.printed["DEFS"][0]
     cases = r.printed["CASE"]
+    rr = lib.tlc("abi", "MC_Abi", "abi_slres.cfg", workers=2, coverage=False)
+    lib.tlc_expect_ok(rr, "Abi slices as Result arms")
+    rep.add_tlc("Abi/slres", rr)
+    cases = cases + rr.printed["CASE"]
     rs = lib.tlc("abi", "MC_Abi", "abi_random.cfg", workers=1, coverage=False, simulate=100, depth=8)
     lib.tlc_expect_ok(rs, "Abi random")
     rep.add_tlc("Abi/random", rs)
